@@ -667,31 +667,20 @@ func (c *Collection) FindOneAndDelete(ctx context.Context, filter interface{}, o
 		}
 	}
 
-	// delete documents
+	// delete documents, the projection is applied within the transaction so
+	// that a failing projection aborts the write
 	res, err := useTransaction(ctx, c.engine, true, func(txn *Transaction) (interface{}, error) {
-		return txn.Delete(c.handle, query, sort, 0, 1)
+		res, err := txn.Delete(c.handle, query, sort, 0, 1)
+		if err != nil {
+			return nil, err
+		}
+		return projectModified(res, false, projection)
 	})
 	if err != nil {
 		return &SingleResult{err: err}
 	}
 
-	// get list
-	list := res.(*Result).Matched
-
-	// check list
-	if len(list) == 0 {
-		return &SingleResult{}
-	}
-
-	// apply projection
-	if projection != nil {
-		list, err = mongokit.ProjectList(list, projection)
-		if err != nil {
-			return &SingleResult{err: err}
-		}
-	}
-
-	return &SingleResult{doc: list[0]}
+	return &SingleResult{doc: res.(bsonkit.Doc)}
 }
 
 // FindOneAndReplace implements the ICollection.FindOneAndReplace method.
@@ -769,37 +758,19 @@ func (c *Collection) FindOneAndReplace(ctx context.Context, filter, replacement 
 
 	// insert document
 	res, err := useTransaction(ctx, c.engine, true, func(txn *Transaction) (interface{}, error) {
-		return txn.Replace(c.handle, query, sort, repl, upsert)
+		// the projection is applied within the transaction so that a
+		// failing projection aborts the write
+		res, err := txn.Replace(c.handle, query, sort, repl, upsert)
+		if err != nil {
+			return nil, err
+		}
+		return projectModified(res, returnAfter, projection)
 	})
 	if err != nil {
 		return &SingleResult{err: err}
 	}
 
-	// get result
-	result := res.(*Result)
-
-	// get doc
-	var doc bsonkit.Doc
-	if result.Upserted != nil {
-		if returnAfter {
-			doc = result.Upserted
-		}
-	} else if len(result.Matched) > 0 {
-		doc = result.Matched[0]
-		if returnAfter && len(result.Modified) > 0 {
-			doc = result.Modified[0]
-		}
-	}
-
-	// apply projection
-	if doc != nil && projection != nil {
-		doc, err = mongokit.Project(doc, projection)
-		if err != nil {
-			return &SingleResult{err: err}
-		}
-	}
-
-	return &SingleResult{doc: doc}
+	return &SingleResult{doc: res.(bsonkit.Doc)}
 }
 
 // FindOneAndUpdate implements the ICollection.FindOneAndUpdate method.
@@ -882,37 +853,19 @@ func (c *Collection) FindOneAndUpdate(ctx context.Context, filter, update interf
 
 	// update documents
 	res, err := useTransaction(ctx, c.engine, true, func(txn *Transaction) (interface{}, error) {
-		return txn.Update(c.handle, query, sort, upd, 0, 1, upsert, arrayFilters)
+		// the projection is applied within the transaction so that a
+		// failing projection aborts the write
+		res, err := txn.Update(c.handle, query, sort, upd, 0, 1, upsert, arrayFilters)
+		if err != nil {
+			return nil, err
+		}
+		return projectModified(res, returnAfter, projection)
 	})
 	if err != nil {
 		return &SingleResult{err: err}
 	}
 
-	// get result
-	result := res.(*Result)
-
-	// get doc
-	var doc bsonkit.Doc
-	if result.Upserted != nil {
-		if returnAfter {
-			doc = result.Upserted
-		}
-	} else if len(result.Matched) > 0 {
-		doc = result.Matched[0]
-		if returnAfter && len(result.Modified) > 0 {
-			doc = result.Modified[0]
-		}
-	}
-
-	// apply projection
-	if doc != nil && projection != nil {
-		doc, err = mongokit.Project(doc, projection)
-		if err != nil {
-			return &SingleResult{err: err}
-		}
-	}
-
-	return &SingleResult{doc: doc}
+	return &SingleResult{doc: res.(bsonkit.Doc)}
 }
 
 // Indexes implements the ICollection.Indexes method.
@@ -1318,4 +1271,29 @@ func (c *Collection) Watch(_ context.Context, pipeline interface{}, opts ...*opt
 	}
 
 	return stream, nil
+}
+
+// projectModified selects the document a find-and-modify operation returns (the
+// matched document, or the modified or upserted one if the document after the
+// change has been requested) and applies the projection to it.
+func projectModified(result *Result, returnAfter bool, projection bsonkit.Doc) (bsonkit.Doc, error) {
+	// get doc
+	var doc bsonkit.Doc
+	if result.Upserted != nil {
+		if returnAfter {
+			doc = result.Upserted
+		}
+	} else if len(result.Matched) > 0 {
+		doc = result.Matched[0]
+		if returnAfter && len(result.Modified) > 0 {
+			doc = result.Modified[0]
+		}
+	}
+
+	// apply projection
+	if doc != nil && projection != nil {
+		return mongokit.Project(doc, projection)
+	}
+
+	return doc, nil
 }
